@@ -46,7 +46,7 @@ const (
 
 // Hostile id universes (disjoint between stores, disjoint from every value pool).
 var EmpIds = []string{"e1", "E1", "e 2", "or", `e"q`, `e\n`, "é3", `e" or id != "`, "e\nl", "e10"} // e1 is a prefix of e10
-var DeptIds = []string{"d1", "D1", "null", `d"q`, `d\t`, "true", `d" or id != "`, "d10"} // d1 is a prefix of d10
+var DeptIds = []string{"d1", "D1", "null", `d"q`, `d\t`, "true", `d" or id != "`, "d10"}           // d1 is a prefix of d10
 
 var NamePool = []string{"n1", "n2", "N1", "n 3", `n"4`}
 var NickPool = []string{"k1", "k2", "K1"}
